@@ -3,9 +3,113 @@ aliases (as registered), aliases explicitly declared on the payload, hidden / st
 Obtained by introspection of the live objects."""
 import gal
 import yaql
-from yaql.language import yaqltypes
+from yaql.language import expressions, specs, utils, yaqltypes
 
 OUTPUT = "Registry.v"
+
+
+def ordered_defs(ctx):
+    """every FunctionDefinition of the context chain in a deterministic order: [(fd, layer)]"""
+    out, layer = [], 0
+    while ctx is not None:
+        for name in sorted(ctx._functions):
+            fds = sorted(ctx._functions[name], key=lambda fd: (fd.payload.__module__, fd.payload.__qualname__,
+                                                                  getattr(fd.payload, "__code__", None) and fd.payload.__code__.co_firstlineno or 0,
+                                                                  sorted(fd.parameters)))
+            out += [(fd, layer) for fd in fds]
+        ctx = ctx.parent
+        layer += 1
+    return out
+
+
+class _ProbeExpr(expressions.Expression):
+    uses_receiver = False
+
+    def __call__(self, receiver, context, engine):
+        return None
+
+
+class Model:
+    """the registry in the vocabulary of Model/Resolution.v: name codes, python-type tags with their strict
+    subclass pairs, and per parameter the answers of the live check() to representative arguments"""
+
+    def __init__(self, ctx=None):
+        import registry_corpus as rcorp
+        self.rcorp = rcorp
+        self.ctx = ctx if ctx is not None else yaql.create_context()
+        self.engine = yaql.YaqlFactory().create()
+        self.defs = ordered_defs(self.ctx)
+        names = set()
+        for fd, _ in self.defs:
+            for p in fd.parameters.values():
+                names.add(p.name)
+                if p.alias:
+                    names.add(p.alias)
+        self.names = {n: 1000 + i for i, n in enumerate(sorted(names))}
+        pts = []
+        for fd, _ in self.defs:
+            for p in fd.parameters.values():
+                t = p.value_type
+                if isinstance(t, yaqltypes.PythonType) and isinstance(t.python_type, type) and t.python_type not in pts:
+                    pts.append(t.python_type)
+        pts.sort(key=lambda c: (c.__module__, c.__qualname__))
+        self.pytags = {c: i + 1 for i, c in enumerate(pts)}
+        self.sub_pairs = sorted((self.pytags[a], self.pytags[b]) for a in pts for b in pts
+                                if a is not b and issubclass(a, b) and not issubclass(b, a))
+
+    def ncode(self, name):
+        return self.names[name]
+
+    def _check(self, t, value):
+        try:
+            return bool(t.check(value, self.ctx, self.engine))
+        except Exception:
+            return False
+
+    def kind(self, p):
+        t = p.value_type
+        if isinstance(t, yaqltypes.HiddenParameterType):
+            return "(KHidden %s)" % ("HEngine" if isinstance(t, yaqltypes.Engine) else
+                                     "HContext" if isinstance(t, yaqltypes.Context) else "HOther")
+        rc = self.rcorp
+        accr, accc = [], []
+        for c in sorted(rc.CLASSES):
+            if c != rc.KEYWORD_CLASS and self._check(t, rc.make(c)):
+                accr.append(c)
+            const = expressions.KeywordConstant(rc.make(c)) if c == rc.KEYWORD_CLASS else expressions.Constant(rc.make(c))
+            if self._check(t, const):
+                accc.append(c)
+        if p.default is not specs.NO_DEFAULT and p.default is not None and p.default is not utils.NO_VALUE \
+                and self._check(t, p.default):
+            accr.append(rc.DEFAULT_CLASS)
+        st = "None"
+        if isinstance(t, yaqltypes.PythonType) and isinstance(t.python_type, type):
+            st = "(Some %d%%nat)" % self.pytags[t.python_type]
+        mapping = expressions.MappingRuleExpression(expressions.KeywordConstant("k"), expressions.Constant(1))
+        return "(KProbed %s %s %s %s %s %s %s %s %s)" % (
+            gal.boolean(isinstance(t, yaqltypes.LazyParameterType)), gal.natlist(accr), gal.natlist(accc),
+            gal.boolean(self._check(t, None)), gal.boolean(self._check(t, expressions.Constant(None))),
+            gal.boolean(self._check(t, utils.NO_VALUE)), gal.boolean(self._check(t, _ProbeExpr())),
+            gal.boolean(self._check(t, mapping)), st)
+
+    def param(self, key, p):
+        if p.default is specs.NO_DEFAULT:
+            d = "None"
+        elif p.default is None:
+            d = "(Some VNull)"
+        elif p.default is utils.NO_VALUE:
+            d = "(Some VMarker)"
+        else:
+            d = "(Some (VObj %d%%nat))" % self.rcorp.DEFAULT_CLASS
+        return "{| pname := %s; palias := %s; ppos := %s; pdefault := %s; pkind := %s; pstar := %s |}" % (
+            gal.z(self.ncode(p.name)), "(Some %s)" % gal.z(self.ncode(p.alias)) if p.alias else "None",
+            "None" if p.position is None else "(Some %d%%nat)" % p.position, d, self.kind(p),
+            "SArgs" if key == "*" else "SKwargs" if key == "**" else "SNone")
+
+    def fdef(self, idx, fd):
+        return "{| fid := %s; fparams := %s; fnokw := %s; fisfun := %s; fismeth := %s |}" % (
+            gal.z(idx), gal.lst(self.param(k, p) for k, p in fd.parameters.items()),
+            gal.boolean(fd.no_kwargs), gal.boolean(fd.is_function), gal.boolean(fd.is_method))
 
 
 def rows():
@@ -34,8 +138,8 @@ def rows():
 def generate():
     rs = rows()
     lines = ["(* GENERATED by harness/gen_registry.py from the live yaql.create_context(); do not edit *)",
-             "From Coq Require Import List ZArith Bool.", "From YV Require Import Common.Corr Model.Naming.",
-             "Import ListNotations.", "Open Scope Z_scope.", "", "Definition registry : list rdef := ["]
+             "From Coq Require Import List ZArith Bool.", "From YV Require Import Common.Corr Model.Naming Model.Resolution.",
+             "Import ListNotations.", "Local Open Scope Z_scope.", "", "Definition registry : list rdef := ["]
     items = []
     for name, isf, ism, ps, layer in rs:
         pt = gal.lst("{| r_name := %s; r_alias := %s; r_declared := %s; r_hidden := %s; r_star := %s |}" % (
@@ -47,4 +151,15 @@ def generate():
     lines.append("].")
     lines.append("Definition registry_size : nat := %d." % len(rs))
     lines.append("Example registry_size_ok : length registry = registry_size. Proof. reflexivity. Qed.")
+    m = Model()
+    lines.append("")
+    lines.append("(* the same definitions in the vocabulary of Model/Resolution.v (fid = index in this list) *)")
+    lines.append("Definition reg_fdefs : list fdef := [")
+    lines.append(";\n".join("  " + m.fdef(i, fd) for i, (fd, _) in enumerate(m.defs)))
+    lines.append("].")
+    lines.append("Definition reg_layers : list nat := %s." % gal.natlist(l for _, l in m.defs))
+    lines.append("(* strict subclass pairs between the python classes that PythonType parameters name *)")
+    lines.append("Definition reg_sub_pairs : list (nat * nat) := %s." % gal.lst("(%d, %d)%%nat" % ab for ab in m.sub_pairs))
+    lines.append("Definition reg_sub (a b : nat) : bool := existsb (fun ab => Nat.eqb (fst ab) a && Nat.eqb (snd ab) b) reg_sub_pairs.")
+    lines.append("Example reg_fdefs_size_ok : length reg_fdefs = registry_size. Proof. reflexivity. Qed.")
     return "\n".join(lines) + "\n"
